@@ -16,7 +16,10 @@ EXPLANATION = (
     "removes both links of every cell, and a cell deletion is paired with a relink. Index arithmetic (negative "
     "indices, IndexError vs KeyError, head deletion) is value reasoning and not decided. (l) list nodes / cells (IdentifiedNode-typed, Optional "
     "or not) are never truth-tested either (<> is a falsy str), (m) every non-consuming rdf:rest walk raises on a revisited cell (a counter "
-    "bound alone is not enough), (n) a wildcard-predicate removal never hits a subject that may be the list node."
+    "bound alone is not enough), (n) a wildcard-predicate removal never hits a subject that may be the list node, (o) a link-by-link removal hits the list node only "
+    "(every other cell is dropped whole), (p) a wildcard removal never hits rdf:nil, (q) a remove-then-add replacement (Graph.set) checks the new value before it removes the "
+    "old, (r) in Collection the write that the graph may refuse is the first change of its pass, (s) member loops of the list classes reach the next member and value-returning "
+    "methods return on every path."
 )
 
 
@@ -235,7 +238,8 @@ def run(repo: Repo, rep: Report) -> None:
     # ------------------------------------------------------------------ (f) mutate only over materialised walks / fresh cells
     rep.rule("C19.f-mutating-loops-and-fresh-cells",
              "a loop in Collection whose body removes or re-links cells does not iterate a lazy walk of the same chain (a generator method / "
-             "graph iterator): it uses its own cursor or a materialised list; every new cell is an argument-free BNode()", floor=2)
+             "graph iterator): it uses its own cursor or a materialised list, and no statement looks up the rdf:rest of a cell later in the same pass than the removal of that "
+             "cell's rdf:rest link (the successor is read first); every new cell is an argument-free BNode()", floor=2)
     gens = {m for m, f in methods.items() if any(isinstance(x, (ast.Yield, ast.YieldFrom)) for x in own_nodes(f))}
     for mname, f in methods.items():
         al = _graph_aliases(f)
@@ -255,6 +259,25 @@ def run(repo: Repo, rep: Report) -> None:
             rep.ob("C19.f-mutating-loops-and-fresh-cells", col, "Collection." + mname, "for %s in %s" % (norm(lp.target), norm(it)[:50]), lazy is None,
                    "iterates a materialised / independent sequence while editing cells" if lazy is None else
                    "cells are removed/re-linked while %s: the walk loses its way after the first edit and the remaining cells stay behind as orphans" % lazy, node=lp)
+    # the same clause for a walk with its own cursor (which is what a loop over a generator of cells is, once the generator is written out in
+    # place): the successor of a cell is looked up BEFORE the cell's rdf:rest link is removed - never later in the same pass
+    from vlib import h_c19 as _H
+
+    for mname, f in methods.items():
+        al = _graph_aliases(f)
+        g = None
+        for c in own_nodes(f):
+            if not (_gcall(c, al, {"remove"}) and c.args and isinstance(c.args[0], ast.Tuple) and len(c.args[0].elts) == 3):
+                continue
+            s_, p_, _o = c.args[0].elts
+            if not (isinstance(s_, ast.Name) and (loops._is_rest(p_) or (isinstance(p_, ast.Constant) and p_.value is None))):
+                continue
+            if g is None:
+                g = CFG(f)
+            late = _H.successor_read_after_unlink(g, g.node_of(c, col), s_.id)
+            rep.ob("C19.f-mutating-loops-and-fresh-cells", col, "Collection." + mname, c, late is None,
+                   "no lookup of the rdf:rest of %s follows in the same pass" % s_.id if late is None else
+                   "the rdf:rest link of %s is removed and `%s` asks the graph for it afterwards: the walk ends (or the re-link is lost) after this cell and the cells behind it stay in the graph as orphans" % (s_.id, norm(late)[:70]), node=c)
     for mname, f in methods.items():
         for c in own_nodes(f):
             if isinstance(c, ast.Call) and norm(c.func) == "BNode":
@@ -263,11 +286,13 @@ def run(repo: Repo, rep: Report) -> None:
                        "fresh cell" if ok else "a new cell is named from data (%s): after deletions the name can coincide with a cell still in the chain" % norm(c)[:60], node=c)
 
 
+from vlib.core import layer as _layer  # noqa: E402
+
 _run_base = run
 
 
 def run(repo: Repo, rep: Report) -> None:  # noqa: F811
-    _run_base(repo, rep)
+    _layer(rep, _run_base, repo)
     col = repo.mod("rdflib.collection")
     m = col.methods("Collection")
     gc = m["_get_container"]
@@ -360,14 +385,18 @@ _run_base2 = run
 
 
 def run(repo: Repo, rep: Report) -> None:  # noqa: F811
-    _run_base2(repo, rep)
+    _layer(rep, _run_base2, repo)
+    from vlib import h_c19 as H
+
     col = repo.mod("rdflib.collection")
     m = col.methods("Collection")
     # ------------------------------------------------------------------ (j)
     rep.rule("C19.j-cell-occupancy-is-read-from-the-graph",
              "append and __iadd__ decide whether the end cell already holds a member by asking the graph (`(end, rdf:first, None) in graph`) for the cell they are about to fill, "
              "at the point of filling it: inside __iadd__'s loop, once per item. A flag computed before the loop (`the end cell is the head of an empty list`) is wrong for the "
-             "one-member list, whose end cell is the head too, and stale after the first item", floor=2)
+             "one-member list, whose end cell is the head too, and stale after the first item. Stated by value flow: every value that can reach the subject of the rdf:first "
+             "write (through copies and the arms of a conditional expression) is a node made in this pass, or a cell for which `(cell, rdf:first, ..) in graph` is evaluated in "
+             "the same pass on every path to the write, its outcome deciding a branch (if / conditional expression, directly or through a flag bound once)", floor=2)
     def _first_adds(fn):
         return [c for c in own_nodes(fn) if isinstance(c, ast.Call) and isinstance(c.func, ast.Attribute) and c.func.attr in ("add", "set") and c.args and isinstance(c.args[0], ast.Tuple)
                 and len(c.args[0].elts) == 3 and norm(c.args[0].elts[1]).endswith("RDF.first")]
@@ -386,13 +415,15 @@ def run(repo: Repo, rep: Report) -> None:  # noqa: F811
                        "the cell-writing helper is called once per item" if per_item else "the cell-writing helper is not called inside the loop over the items", node=calls[0])
             f = m[calls[0].func.attr]
             adds = _first_adds(f)
+        # which cell does the write fill?  By value flow (copies, casts and both arms of a conditional expression are followed): a node made in
+        # this pass (BNode()), or a cell that was there before - then the graph has to be asked about THAT cell in this pass (loop round / call),
+        # on every path to the write, and the answer has to decide a branch (an if / conditional expression, directly or through a flag)
+        g = CFG(f)
         for a in adds:
-            cell = norm(a.args[0].elts[0])
-            fresh = isinstance(a.args[0].elts[0], ast.Name) and any(isinstance(x, ast.Assign) and norm(x.targets[0]) == cell and isinstance(x.value, ast.Call) and norm(x.value.func) == "BNode" for x in own_nodes(f))
-            if fresh:
-                rep.ob("C19.j-cell-occupancy-is-read-from-the-graph", col, "Collection." + name, a, True, "a cell made for this item (a new BNode): it holds no member yet", node=a)
-                continue
-            # the nearest enclosing loop (or the function) must contain, before the add, an If whose test is a membership test on (cell, RDF.first, None)
+            subj = a.args[0].elts[0]
+            cell = norm(subj)
+            aid = g.node_of(a, col)
+            # one pass: a round of the nearest enclosing loop, else the call
             scope = f
             for p_ in col.parents(a):
                 if isinstance(p_, (ast.For, ast.While)):
@@ -400,11 +431,18 @@ def run(repo: Repo, rep: Report) -> None:  # noqa: F811
                     break
                 if p_ is f:
                     break
-            tests = [n for n in ast.walk(scope) if isinstance(n, ast.If) and n.lineno < a.lineno and any(
-                isinstance(c, ast.Compare) and isinstance(c.ops[0], (ast.In, ast.NotIn)) and isinstance(c.left, ast.Tuple) and len(c.left.elts) == 3
-                and norm(c.left.elts[0]) == cell and norm(c.left.elts[1]).endswith("RDF.first") for c in ast.walk(n.test))]
-            rep.ob("C19.j-cell-occupancy-is-read-from-the-graph", col, "Collection." + name, a, bool(tests),
-                   "occupancy of %s read from the graph %s" % (cell, "in the loop" if scope is not f else "before filling") if tests else
+            start = g.entry if scope is f else g.node_of(scope)
+            pending = sorted(r for r in H.value_roots(g, start, aid, subj) if r[0] != "fresh")
+            if not pending:
+                rep.ob("C19.j-cell-occupancy-is-read-from-the-graph", col, "Collection." + name, a, True, "a cell made for this item (a new BNode): it holds no member yet", node=a)
+                continue
+            later = {}
+            asked = [roots for cid, roots, decides in H.occupancy_reads(g, col, scope, start)
+                     if H.dominated_in_scope(g, start, aid, cid)
+                     and any(t == aid or aid in later.setdefault(t, H.forward_no_back(g, t)) for t in decides)]
+            missing = [r for r in pending if not any(r in roots for roots in asked)]
+            rep.ob("C19.j-cell-occupancy-is-read-from-the-graph", col, "Collection." + name, a, not missing,
+                   "occupancy of %s read from the graph %s" % (cell, "in the loop" if scope is not f else "before filling") if not missing else
                    "the member is written to %s without asking the graph, in this %s, whether that cell already has one: on a one-member list `c += [x]` writes a second rdf:first onto the head cell" % (cell, "loop iteration" if scope is not f else "call"), node=a)
 
 
@@ -412,7 +450,7 @@ _run_base3 = run
 
 
 def run(repo: Repo, rep: Report) -> None:  # noqa: F811
-    _run_base3(repo, rep)
+    _layer(rep, _run_base3, repo)
     col = repo.mod("rdflib.collection")
     f = col.methods("Collection")["__iadd__"]
     par = f.args.args[1].arg
@@ -450,7 +488,7 @@ _run_base4 = run
 
 
 def run(repo: Repo, rep: Report) -> None:  # noqa: F811
-    _run_base4(repo, rep)
+    _layer(rep, _run_base4, repo)
     from vlib import h_c19
 
     col = repo.mod("rdflib.collection")
@@ -527,7 +565,8 @@ def run(repo: Repo, rep: Report) -> None:  # noqa: F811
     # ------------------------------------------------------------------ (n) the list node is never wiped
     rep.rule("C19.n-list-node-is-never-wiped",
              "a removal with a wildcard predicate, graph.remove((x, None, None)), in Collection only hits a cell that cannot be the list node self.uri: x is (by "
-             "def-use) the value of an rdf:rest lookup, or _get_container(k) with k > 0 established on every path. The list node is a resource of its own "
+             "def-use) the value of an rdf:rest lookup, or _get_container(k) with k > 0 established on every path, or sits on the `!= the list node` side of a comparison "
+             "(the list node: self.uri, or a local name every reaching definition of which is a copy of it, self.uri being bound by __init__ only). The list node is a resource of its own "
              "(rdf:type, labels, owl:unionOf subject ...): emptying the list through it - del c[0] on a one-member list - removes rdf:first/rdf:rest only, "
              "exactly like clear() and like del c[0] on a longer list", floor=2)
     nonec = truthy.none_constants(col)
@@ -555,3 +594,266 @@ def run(repo: Repo, rep: Report) -> None:  # noqa: F811
         raise AnalysisError("expected >= 4 graph.remove((s, p, o)) calls in Collection, found %d" % n_cell_removals)
     if n_wipes == 0:
         rep.ob("C19.n-list-node-is-never-wiped", col, "Collection", "no wildcard-predicate removal", True, "cells are removed link by link", node=col.cls("Collection"))
+
+
+_run_base5 = run
+
+
+def run(repo: Repo, rep: Report) -> None:  # noqa: F811
+    _layer(rep, _run_base5, repo)
+    from vlib import h_c19 as H
+    from vlib.cfg import reaching_defs
+
+    col = repo.mod("rdflib.collection")
+    gr = repo.mod("rdflib.graph")
+    methods = col.methods("Collection")
+    nonec = truthy.none_constants(col)
+
+    def triple_calls(f, al, names):
+        for c in own_nodes(f):
+            if _gcall(c, al, names) and c.args and isinstance(c.args[0], ast.Tuple) and len(c.args[0].elts) == 3:
+                yield c
+
+    def is_link(p):
+        return isinstance(p, ast.Attribute) and p.attr in ("first", "rest")
+
+    # ------------------------------------------------------------------ (o) cells other than the list node are dropped whole
+    # the dual of (n): (n) keeps the wildcard removal away from the list node, (o) keeps the link-by-link removal away from every
+    # other cell - __delitem__ and clear agree on both
+    rep.rule("C19.o-only-the-list-node-is-emptied-link-by-link",
+             "a removal of just the links, graph.remove((x, rdf:first|rdf:rest, None)), in Collection hits the list node only: x is self.uri, sits on the `== self.uri` side "
+             "of a comparison (self.uri or a local copy of it, by reaching definitions), or is _get_container(k) on a path that excludes k > 0 (or the removal is the first half of a re-link: the same link of x is added again on "
+             "every path). Every other cell is a blank node the list made for itself and is dropped whole, as __delitem__ drops it: with only its two links removed, "
+             "clear() on [a, b] whose second cell carries (cell rdf:type rdf:List) leaves that cell behind as an orphan", floor=4)
+    n_links = 0
+    for mname, f in methods.items():
+        al = _graph_aliases(f)
+        g = None
+        for c in triple_calls(f, al, {"remove"}):
+            s, p, o = c.args[0].elts
+            if not (is_link(p) and truthy._is_none(o, nonec)):
+                continue
+            n_links += 1
+            if g is None:
+                g = CFG(f)
+            relinks = {g.node_of(a, col) for a in triple_calls(f, al, {"add", "set"}) if norm(a.args[0].elts[0]) == norm(s) and norm(a.args[0].elts[1]) == norm(p)}
+            if relinks and g.must_pass_after(g.node_of(c, col), relinks):
+                rep.ob("C19.o-only-the-list-node-is-emptied-link-by-link", col, "Collection." + mname, c, True, "first half of a re-link: the link is added again on every path", node=c)
+                continue
+            reasons = H.head_certain(g, col, c, s)
+            rep.ob("C19.o-only-the-list-node-is-emptied-link-by-link", col, "Collection." + mname, c, not reasons,
+                   "%s is the list node" % norm(s) if not reasons else
+                   "%s may be a cell other than the list node (%s): only its %s link is removed, whatever else is said about the cell (rdf:type rdf:List ...) stays in the graph "
+                   "as an orphaned blank node, where __delitem__ removes (cell, None, None)" % (norm(s), "; ".join(sorted(set(reasons)))[:300], p.attr), node=c)
+    if n_links == 0:
+        raise AnalysisError("Collection removes no rdf:first / rdf:rest link: rule (o) has lost its anchor")
+
+    # ------------------------------------------------------------------ (p) a wildcard removal never hits rdf:nil
+    rep.rule("C19.p-nil-is-never-wiped",
+             "the subject of graph.remove((x, None, None)) in Collection cannot be rdf:nil: x is (by def-use) the value of _get_container (never rdf:nil: rule g), or `x != rdf:nil` "
+             "is established by a branch on every path since x was bound - a walk that drops cells stops AT rdf:nil. rdf:nil is shared by every list of the graph: clear() "
+             "walking one step too far deletes (rdf:nil rdf:type rdf:List) and whatever else the graph says about it", floor=3)
+    n_wild = 0
+    for mname, f in methods.items():
+        al = _graph_aliases(f)
+        g = None
+        for c in triple_calls(f, al, {"remove"}):
+            s, p, o = c.args[0].elts
+            if not truthy._is_none(p, nonec):
+                continue
+            n_wild += 1
+            if g is None:
+                g = CFG(f)
+            reasons = H.nil_possible(g, col, c, s)
+            rep.ob("C19.p-nil-is-never-wiped", col, "Collection." + mname, c, not reasons,
+                   "%s cannot be rdf:nil here" % norm(s) if not reasons else
+                   "%s may be rdf:nil (%s): every statement about rdf:nil is deleted from the graph" % (norm(s), "; ".join(sorted(set(reasons)))[:300]), node=c)
+    if n_wild == 0:
+        rep.ob("C19.p-nil-is-never-wiped", col, "Collection", "no wildcard-predicate removal", True, "cells are removed link by link", node=col.cls("Collection"))
+
+    # ------------------------------------------------------------------ (q) a replacement checks the new value before it removes the old
+    add_fn = gr.func("Graph.add")
+    refusals = H.add_refusals(add_fn)
+    if not refusals:
+        raise AnalysisError("Graph.add asserts nothing about the components of its triple: rule (q) has lost its anchor")
+    term_names = {c.rsplit(".", 1)[-1] for c in repo.typed.subclasses("rdflib.term.Node")}
+    if "Node" not in term_names or "Literal" not in term_names:
+        raise AnalysisError("term class hierarchy not found under rdflib.term.Node")
+    rep.info["graph_add_refuses"] = {str(k): sorted(v) for k, v in refusals.items()}
+    rep.rule("C19.q-replacement-validates-before-removing",
+             "in rdflib.graph and rdflib.collection, where g.remove((s, p, None)) is followed by g.add((s, p, o)) (a replacement of the old values, Graph.set), every component "
+             "that the removal leaves open and that Graph.add refuses unless it is an rdflib term is checked - assert isinstance(o, Node) / raise / _assertnode(o) - BEFORE the "
+             "removal (or is a term by construction). add() raising after the removal has lost the old value: c[0] = 5 on a Collection raises and leaves the first cell "
+             "without rdf:first, where a Python list is unchanged by a failed assignment", floor=1)
+    n_repl = 0
+    for mod in (gr, col):
+        helpers = H.validator_helpers(mod, term_names)
+        for q, f in mod.functions():
+            rems = [c for c in own_nodes(f) if isinstance(c, ast.Call) and isinstance(c.func, ast.Attribute) and c.func.attr == "remove" and len(c.args) == 1
+                    and isinstance(c.args[0], ast.Tuple) and len(c.args[0].elts) == 3]
+            adds = [c for c in own_nodes(f) if isinstance(c, ast.Call) and isinstance(c.func, ast.Attribute) and c.func.attr == "add" and len(c.args) == 1
+                    and isinstance(c.args[0], ast.Tuple) and len(c.args[0].elts) == 3]
+            if not rems or not adds:
+                continue
+            nonec_m = truthy.none_constants(mod)
+            g = None
+            for r in rems:
+                for a in adds:
+                    if norm(r.func.value) != norm(a.func.value):
+                        continue
+                    open_pos = [i for i in range(3) if truthy._is_none(r.args[0].elts[i], nonec_m) and not truthy._is_none(a.args[0].elts[i], nonec_m)]
+                    same = all(i in open_pos or norm(r.args[0].elts[i]) == norm(a.args[0].elts[i]) for i in range(3))
+                    if not open_pos or not same:
+                        continue
+                    if g is None:
+                        g = CFG(f)
+                    rn, an = g.node_of(r, mod), g.node_of(a, mod)
+                    if an not in g.reach(rn):
+                        continue
+                    for i in open_pos:
+                        if i not in refusals:
+                            continue
+                        n_repl += 1
+                        v = a.args[0].elts[i]
+                        classes = term_names
+                        def by_construction(e):
+                            return (isinstance(e, ast.Call) and bool(H._cls_names(e.func) & term_names)) or H.is_nil(e) or (
+                                isinstance(e, ast.Attribute) and isinstance(e.value, ast.Name) and e.value.id.isupper())
+                        if isinstance(v, ast.Name):
+                            defs = H._resolve(g, an, v.id)
+                            built = bool(defs) and all(val is not None and by_construction(H.strip_cast(val)) for _, val in defs)
+                            ok = built or H.validated_before(g, f, rn, v.id, classes, helpers)
+                            why = ("a term by construction" if built else "checked to be an rdflib term before the removal") if ok else \
+                                "%s is handed to add() after the old values are gone, and add() refuses what is not a %s: the removal is not undone" % (v.id, "/".join(sorted(refusals[i])))
+                        else:
+                            ok = by_construction(v)
+                            why = "a term by construction" if ok else "%s is not checked before the removal" % norm(v)[:60]
+                        rep.ob("C19.q-replacement-validates-before-removing", mod, q, "%s ; %s" % (norm(r), norm(a)), ok, why, node=r)
+    if n_repl == 0:
+        raise AnalysisError("no remove((s, p, None)) ... add((s, p, o)) replacement found in rdflib.graph (Graph.set): rule (q) has lost its anchor")
+
+    # ------------------------------------------------------------------ (r) the write that can be refused is the first change
+    rep.rule("C19.r-refusable-write-comes-first",
+             "in every Collection method, a write that carries a value handed in by the caller as it is (a parameter of a public method, a member or copy of one, or what a "
+             "private helper is handed of those) - graph.add/set of a triple with it, a call of a mutating Collection method with it - is not preceded, within the same pass "
+             "through the method (loop back edges aside), by another change to the graph, unless the value was checked to be an rdflib term first. The graph refuses what is "
+             "not a term by raising: c.append(5) after rdf:nil was detached from the last cell leaves a chain that no longer ends in rdf:nil; with the new cell completed "
+             "first and linked last, a refused item leaves the list as it was", floor=5)
+    # which methods change the graph (directly or through another method of the class)
+    mutating: set[str] = set()
+    changed = True
+    while changed:
+        changed = False
+        for mname, f in methods.items():
+            if mname in mutating:
+                continue
+            al = _graph_aliases(f)
+            if any(_gcall(c, al, {"add", "set", "remove", "addN"}) for c in own_nodes(f)) or any(
+                    isinstance(c, ast.Call) and isinstance(c.func, ast.Attribute) and norm(c.func.value) == "self" and c.func.attr in mutating for c in own_nodes(f)) or any(
+                    isinstance(c, ast.AugAssign) and norm(c.target) == "self" and "__iadd__" in mutating for c in own_nodes(f)):
+                mutating.add(mname)
+                changed = True
+    for need in ("append", "__iadd__", "__setitem__"):
+        if need not in mutating:
+            raise AnalysisError("Collection.%s does not change the graph: rule (r) has lost its anchor" % need)
+
+    def private(name):
+        return name.startswith("_") and not (name.startswith("__") and name.endswith("__"))
+
+    def params(f):
+        return [a.arg for a in f.args.posonlyargs + f.args.args + f.args.kwonlyargs] + ([f.args.vararg.arg] if f.args.vararg else [])
+
+    raw_params: dict[str, set[str]] = {m: (set() if private(m) else set(params(f)[1:])) for m, f in methods.items()}
+    cfgs = {m: CFG(f) for m, f in methods.items() if m in mutating}
+
+    def events(mname):
+        """(call/statement, argument expressions, kind) for every change to the graph made by the method's own statements"""
+        f = methods[mname]
+        al = _graph_aliases(f)
+        for c in own_nodes(f):
+            if _gcall(c, al, {"add", "set", "remove", "addN"}):
+                args = list(c.args[0].elts) if c.args and isinstance(c.args[0], ast.Tuple) else list(c.args)
+                yield c, args, c.func.attr
+            elif isinstance(c, ast.Call) and isinstance(c.func, ast.Attribute) and norm(c.func.value) == "self" and c.func.attr in mutating:
+                yield c, list(c.args) + [k.value for k in c.keywords], "self." + c.func.attr
+            elif isinstance(c, ast.AugAssign) and norm(c.target) == "self" and isinstance(c.op, ast.Add):
+                yield c, [c.value], "self.__iadd__"
+
+    changed = True
+    while changed:  # what private helpers are handed
+        changed = False
+        for mname in mutating:
+            g = cfgs[mname]
+            for c, args, kind in events(mname):
+                if kind.startswith("self.") and isinstance(c, ast.Call) and private(c.func.attr):
+                    ps = params(methods[c.func.attr])[1:]
+                    at = g.node_of(c, col)
+                    for i, a in enumerate(c.args):
+                        if i < len(ps) and ps[i] not in raw_params[c.func.attr] and H.is_raw(g, at, a, raw_params[mname]):
+                            raw_params[c.func.attr].add(ps[i])
+                            changed = True
+    rep.info["raw_parameters_of_private_helpers"] = {m: sorted(v) for m, v in raw_params.items() if private(m) and v}
+    n_ref = 0
+    for mname in sorted(mutating):
+        f = methods[mname]
+        g = cfgs[mname]
+        evs = [(c, args, kind, g.node_of(c, col)) for c, args, kind in events(mname)]
+        for c, args, kind, at in evs:
+            if kind == "remove":
+                continue
+            raws = [a for a in args if H.is_raw(g, at, a, raw_params[mname])]
+            if not raws:
+                continue
+            n_ref += 1
+            earlier = [c2 for c2, _, _, at2 in evs if c2 is not c and (at in H.forward_no_back(g, at2) or (at2 == at and getattr(c2, "col_offset", 0) < getattr(c, "col_offset", 0)))]
+            unchecked = [a for a in raws if not (isinstance(H.strip_cast(a), ast.Name) and all(
+                H.validated_before(g, f, g.node_of(c2, col), H.strip_cast(a).id, term_names, set()) for c2 in earlier))]
+            ok = not earlier or not unchecked
+            rep.ob("C19.r-refusable-write-comes-first", col, "Collection." + mname, c, ok,
+                   ("first change to the graph on every path" if not earlier else "the value is checked before the first change") if ok else
+                   "%s is handed to the graph after %s: if it is refused (not an rdflib term, e.g. 5) the method raises with the list half-edited" % (
+                       ", ".join(norm(a) for a in unchecked), "; ".join(norm(c2)[:60] for c2 in earlier[:3])), node=c)
+    if n_ref == 0:
+        raise AnalysisError("no write of a caller-supplied value found in Collection: rule (r) has lost its anchor")
+
+    # ------------------------------------------------------------------ (s) loops over all members reach the next member; verdicts are values
+    inf = repo.mod("rdflib.extras.infixowl")
+    proxies = sorted(c for c in repo.typed.subclasses("rdflib.extras.infixowl.OWLRDFListProxy") if c.startswith("rdflib.extras.infixowl."))
+    if "rdflib.extras.infixowl.OWLRDFListProxy" not in proxies:
+        raise AnalysisError("OWLRDFListProxy not found in rdflib.extras.infixowl")
+    list_scope = [(col, "Collection." + m, f) for m, f in methods.items()] + [(gr, "Graph.items", gr.func("Graph.items"))]
+    for full in proxies:
+        cname = full.rsplit(".", 1)[-1]
+        list_scope += [(inf, cname + "." + m, f) for m, f in inf.methods(cname).items()]
+    for mod, q, f in list_scope:
+        rep.analysed("%s:%s" % (mod.rel, q))
+    rep.rule("C19.s-member-loops-go-round-and-verdicts-are-values",
+             "in the list classes (Collection, Graph.items, OWLRDFListProxy and its subclasses): (1) the body of every for/while loop has a path back to the loop head - a "
+             "loop whose every path returns, raises or breaks looks at the first member only; (2) a method that returns a value returns one on every path, it never falls off "
+             "the end. With `return True` inside the member loop of __eq__, [a, b] == [a, c] is True after the first pair, and [] == [] runs no iteration and answers None", floor=27)
+    for mod, q, f in list_scope:
+        g = None
+        for lp in own_nodes(f):
+            if not isinstance(lp, (ast.For, ast.AsyncFor, ast.While)):
+                continue
+            if g is None:
+                g = CFG(f)
+            h = g.node_of(lp)
+            if not g.reachable(h):
+                continue
+            fwd = g.reach(h)
+            again = any(g.edge_label.get((p_, h)) == "back" and p_ in fwd for p_ in g.pred[h])
+            rep.ob("C19.s-member-loops-go-round-and-verdicts-are-values", mod, q, "%s %s: ..." % ("while" if isinstance(lp, ast.While) else "for", norm(lp.test if isinstance(lp, ast.While) else lp.iter)[:60]), again,
+                   "the body can reach the next round" if again else
+                   "every path through the body leaves the loop in its first round (return / raise / break): only the first member is looked at", node=lp)
+        is_gen = any(isinstance(x, (ast.Yield, ast.YieldFrom)) for x in own_nodes(f))
+        valued = [r for r in own_nodes(f) if isinstance(r, ast.Return) and r.value is not None and not truthy._is_none(r.value, set())]
+        if is_gen or not valued:
+            continue
+        if g is None:
+            g = CFG(f)
+        falls = [p_ for p_ in g.pred[g.exit] if g.reachable(p_) and not (isinstance(g.nodes[p_].ast, ast.Return) and g.nodes[p_].ast.value is not None)]
+        rep.ob("C19.s-member-loops-go-round-and-verdicts-are-values", mod, q, "every path ends in `return <value>`", not falls,
+               "%d return statement(s), no path falls off the end" % len(valued) if not falls else
+               "a path leaves the method after `%s` without a return: the caller gets None where the other paths answer %s" % (
+                   norm(g.nodes[falls[0]].ast)[:60] if g.nodes[falls[0]].ast is not None else "entry", " / ".join(sorted({norm(r.value)[:20] for r in valued})[:3])), node=f)
